@@ -67,7 +67,12 @@ func Explore(p *Program, cfg ExploreConfig) *ExploreResult {
 	start := time.Now()
 	var mu sync.Mutex
 	cond := sync.NewCond(&mu)
-	stack := []WorkItem{{}}
+	// one deque per worker: a worker explores its own subtree depth-first
+	// (consecutive paths share long prefixes, which the solver stack keeps)
+	// and steals the shallowest pending item of the fullest deque when idle
+	deques := make([][]WorkItem, cfg.Workers)
+	deques[0] = []WorkItem{{}}
+	pending := 1
 	active := 0
 	stop := false
 	total := 0
@@ -85,17 +90,30 @@ func Explore(p *Program, cfg ExploreConfig) *ExploreResult {
 		for {
 			tw := time.Now()
 			mu.Lock()
-			for len(stack) == 0 && active > 0 && !stop {
+			for pending == 0 && active > 0 && !stop {
 				cond.Wait()
 			}
 			waitT += time.Since(tw)
-			if stop || (len(stack) == 0 && active == 0) {
+			if stop || (pending == 0 && active == 0) {
 				mu.Unlock()
 				cond.Broadcast()
 				break
 			}
-			item := stack[len(stack)-1]
-			stack = stack[:len(stack)-1]
+			var item WorkItem
+			if n := len(deques[id]); n > 0 {
+				item = deques[id][n-1]
+				deques[id] = deques[id][:n-1]
+			} else {
+				best := -1
+				for w := range deques {
+					if len(deques[w]) > 0 && (best < 0 || len(deques[w]) > len(deques[best])) {
+						best = w
+					}
+				}
+				item = deques[best][0]
+				deques[best] = deques[best][1:]
+			}
+			pending--
 			active++
 			mu.Unlock()
 
@@ -150,12 +168,13 @@ func Explore(p *Program, cfg ExploreConfig) *ExploreResult {
 					}
 				}
 			}
-			stack = append(stack, pr.NewWork...)
-			if cfg.MaxPaths > 0 && total >= cfg.MaxPaths && (len(stack) > 0 || active > 0) {
+			deques[id] = append(deques[id], pr.NewWork...)
+			pending += len(pr.NewWork)
+			if cfg.MaxPaths > 0 && total >= cfg.MaxPaths && (pending > 0 || active > 0) {
 				res.Incomplete = fmt.Sprintf("path budget %d exhausted", cfg.MaxPaths)
 				stop = true
 			}
-			if !cfg.Deadline.IsZero() && time.Now().After(cfg.Deadline) && (len(stack) > 0 || active > 0) {
+			if !cfg.Deadline.IsZero() && time.Now().After(cfg.Deadline) && (pending > 0 || active > 0) {
 				res.Incomplete = "time budget exhausted"
 				stop = true
 			}
